@@ -101,10 +101,17 @@ func (self *StreamDecoder) Decode(val interface{}) (err error) {
 			return
 		}
 
+		// NOTICE: the fast skipper ends a number only at ',', ']' or '}' once 16 or more
+		// bytes follow, so the frame of a top-level number may cover the values after it:
+		// resume right behind what was actually decoded
+		if c := self.buf[s]; c == '-' || (c >= '0' && c <= '9') {
+			e = s + self.Decoder.Pos()
+		}
 		self.scanp = e
 		_, empty := self.scan()
 		if empty {
 			// no remain valid bytes, thus we just recycle buffer
+			self.scanp = len(self.buf) // NOTICE: the discarded white space counts as consumed
 			mem := self.buf
 			self.buf = nil
 			freeBytes(mem)
